@@ -505,3 +505,102 @@ var concSpec = ev.Spec[ConcCase]{
 
 func TestConc(t *testing.T)       { ev.Check(t, concSpec) }
 func TestReplayConc(t *testing.T) { ev.Replay(t, concSpec) }
+
+// ---------------------------------------------------------------- harness-owned schedules (gates)
+
+// GateCase is one scripted interleaving: a refresh run is stopped at a hook site while something else happens.
+type GateCase struct {
+	Disk bool   `json:"disk"`
+	Site string `json:"site"` // hook site at which the first refresh run is held
+}
+
+func runGate(c GateCase, x *ev.Ctx) error {
+	id := caseSeq.Add(1)
+	o := world.NewOrigin()
+	defer o.Close()
+	name := fmt.Sprintf("c08g-%d-%d", os.Getpid(), id)
+	pki := world.NewSimplePKI(name, "p256a", "p256b")
+	wx := world.NewCDPWorld(o, pki, "/x.crl")
+	wy := world.NewCDPWorld(o, pki, "/y.crl")
+	ch, err := world.NewChecker(world.CRLOpts{WorkDir: world.NewDir("c08g"), Disk: c.Disk, Background: true})
+	if err != nil {
+		return fmt.Errorf("setup: %v", err)
+	}
+	defer ch.Cleanup()
+	wx.Publish("05", "0a")
+	wy.Publish("0a")
+	// bring X into force (background mode: first handshake triggers the fetch; wait for it)
+	world.Ask(ch, wx.Probe("05"))
+	deadline := time.Now().Add(10 * time.Second)
+	for world.Ask(ch, wx.Probe("05")).Kind != "revoked" {
+		if time.Now().After(deadline) {
+			return fmt.Errorf("setup: list X not in force after 10 s")
+		}
+		time.Sleep(time.Millisecond)
+	}
+	ch.VerifTick() // barrier: the asynchronous run started by the handshake is over
+	var hits, done atomic.Int64
+	gate := make(chan struct{})
+	reached := make(chan struct{}, 1)
+	verifhook.Set(func(site string) {
+		if site == "checker.update.done" {
+			done.Add(1)
+		}
+		if site == c.Site && hits.Add(1) == 1 {
+			reached <- struct{}{}
+			<-gate
+		}
+	})
+	defer verifhook.Set(nil)
+	// run 1: a refresh of everything known; it is held after it has fetched the OLD list
+	go ch.VerifForceUpdate()
+	select {
+	case <-reached:
+	case <-time.After(10 * time.Second):
+		close(gate)
+		return fmt.Errorf("setup: the refresh never reached hook site %s", c.Site)
+	}
+	// meanwhile the CA publishes a new list and a client with a not yet known CDP connects
+	wx.Publish("06", "0a")
+	world.Ask(ch, wy.Probe("0c")) // background mode: starts the asynchronous forced refresh (run 2)
+	time.Sleep(60 * time.Millisecond)
+	mid := world.Ask(ch, wx.Probe("06")) // has anybody brought the new list into force while run 1 is held?
+	close(gate)
+	deadline = time.Now().Add(20 * time.Second)
+	for done.Load() < 2 {
+		if time.Now().After(deadline) {
+			return fmt.Errorf("the two refresh runs did not finish within 20 s (done=%d)", done.Load())
+		}
+		time.Sleep(time.Millisecond)
+	}
+	final06, final05 := world.Ask(ch, wx.Probe("06")), world.Ask(ch, wx.Probe("05"))
+	x.Classf("gate=%s", c.Site)
+	x.Classf("mid=%s", mid.Kind)
+	if mid.Kind == "revoked" && final06.Kind != "revoked" {
+		return fmt.Errorf("the new list of X was observed in force (serial 06 revoked) while an older refresh run was still in progress, and afterwards the OLD list is in force again (06 -> %v, 05 -> %v): old observed after new", final06, final05)
+	}
+	// run 2 started after the publication and ends last (refresh runs are serialised): the new list must be in force
+	if final06.Kind != "revoked" || final05.Kind != "ok" {
+		return fmt.Errorf("after both refresh runs finished (the second one started after the new list was published) the old list is in force: 06 -> %v, 05 -> %v", final06, final05)
+	}
+	x.NonTrivial(fmt.Sprintf("gate|%v|%s", c.Disk, c.Site))
+	return nil
+}
+
+var gateSpec = ev.Spec[GateCase]{
+	ID:  "C08",
+	Run: runGate,
+	Rule: "harness-owned schedules: in fetch_background mode a refresh run of everything known is held at a hook site (after the download / after parsing / before the swap) while the CA publishes a newer list and a client with a not yet known CDP connects (which starts a second, asynchronous refresh run); the held run is then released. Oracle: once the new list has been observed the old one is never observed again, and after both runs finished the list published before the later run started is in force. Enumerated over hook sites x back-ends.",
+}
+
+func TestGated(t *testing.T) {
+	var cases []GateCase
+	for _, disk := range []bool{false, true} {
+		for _, site := range []string{"repo.refresh.downloaded", "repo.refresh.parsed", "repo.refresh.accepted"} {
+			cases = append(cases, GateCase{Disk: disk, Site: site})
+		}
+	}
+	ev.Enumerate(t, gateSpec, cases, false)
+}
+
+func TestReplayGate(t *testing.T) { ev.Replay(t, gateSpec) }
